@@ -1872,7 +1872,7 @@ def verify_function(cx, fn, contract, timeout_ms=20000):
         tname = rec.get('name')
         env['this'] = _this_ptr(cx, st, rec)
     frame = {'env': env, 'fn': fn}
-    result = {'contract': q, 'status': 'ok', 'file': fn.get('loc', {}).get('file') or _file_of(cx, fn),
+    result = {'contract': q, 'status': 'ok', 'file': _file_of(cx, fn),
               'line': fn.get('loc', {}).get('line') or fn.get('range', {}).get('begin', {}).get('line'),
               'paths': 0, 'obligations': [], 'covers': {}, 'solver_time': 0.0, 'props': list(contract.props)}
     try:
@@ -1948,6 +1948,9 @@ def endianness_of(qualname):
 
 
 def _file_of(cx, fn):
+    f = cx.ix.file_of_id.get(fn.get('id'))
+    if f:
+        return f
     r = fn.get('range', {}).get('begin', {})
     return r.get('file') or r.get('includedFrom', {}).get('file') or '?'
 
